@@ -197,6 +197,50 @@ def build(tier, repo):
     r6 = chk.rule("C12-R6", "convex/concave mirror symmetry (sum/max/min and the expression methods used to build PWL problems)",
                   "the LP formed is the one for the problem written (broadcast terms scaled in sum)")
     mr.duality_rule(r6, w)
+    # ---- round 5: the "already in matrix form" shortcut ------------------------------------
+    r7 = chk.rule("C12-R7", "_inmatrixform returns None (solve() then uses inequalities[0] / equalities[0] as G, h, A, b) only for one variable, "
+                  "at most one affine inequality and one equality, no PWL term, and coefficients / constants of full size",
+                  "op.solve() solves the problem that was written down (no constraint dropped, no scalar coefficient handed to solvers.lp)")
+    imf = w.func("modeling", "op._inmatrixform")
+    rets = [x for x in pf._scope_nodes(imf) if isinstance(x, ast.Return) and (x.value is None or (isinstance(x.value, ast.Constant) and x.value.value is None))]
+    for rt in rets:
+        conds = pf.path_condition(rt, cross_loops=True)
+        prem = pf.P_and(*conds) if conds else pf.P_TRUE
+        goal_src = "len(variables) == 1 and not pwl_ineqs and len(lin_ineqs) <= 1 and len(equalities) <= 1 and objective._isaffine()"
+        goal = pf.prop_of(ast.parse(goal_src, mode="eval").body)
+        key = "_inmatrixform:return None only for a problem solve() can read off"
+        res = pf.implies(prem, goal)
+        if res:
+            r7.ok(key, m.where(rt, imf), goal_src)
+        else:
+            r7.violation(key, m.where(rt, imf),
+                         "the shortcut is taken on a path that does not imply `%s` (path condition %s): solve() reads only the first inequality and the "
+                         "first equality of the problem, further constraints are silently dropped" % (goal_src, repr(prem)[:120]), goal_src, repr(prem)[:140])
+        # full sizes: the block of the shortcut compares the size of every coefficient it binds from ._linear._coeff, and the constants' lengths
+        blk = rt
+        while blk is not None and not (isinstance(blk, ast.If) and "len(variables)" in ast.unparse(blk.test)):
+            blk = getattr(blk, "_parent", None)
+        if blk is None:
+            r7.undecided("_inmatrixform:shortcut block", m.where(rt, imf), "enclosing test not found")
+            continue
+        txt = ast.unparse(blk)
+        coeffs = re.findall(r"\b(\w+) = (\w+(?:\[0\])?)\._f\._linear\._coeff(?:\.get\(v\)|\[v\])", txt) + \
+            re.findall(r"\b(\w+) = (objective)\._linear\._coeff(?:\.get\(v\)|\[v\])", txt)
+        for var, src in coeffs:
+            key = "_inmatrixform:shortcut tests the size of %s (coefficient of %s)" % (var, src)
+            if re.search(r"\b%s\.size (?:!=|==) \((?:len\([^()]*(?:\([^()]*\))?[^()]*\)|1), len\(v\)\)" % re.escape(var), txt):
+                r7.ok(key, m.where(blk, imf))
+            else:
+                r7.violation(key, m.where(blk, imf),
+                             "`%s` is handed to solvers.lp as it is stored: a scalar coefficient (x >= 1) is a 1x1 matrix, a broadcast row 1xn - "
+                             "solvers.lp rejects it ('G must be a matrix with n columns')" % var, "%s.size == (len(constraint), len(v))" % var, "no size test")
+        for src in sorted({s_ for _, s_ in coeffs if s_ != "objective"}):
+            key = "_inmatrixform:shortcut tests the length of the constant of %s" % src
+            if re.search(r"len\(%s\._f\._constant\) (?:!=|==) len\(%s\)" % (re.escape(src), re.escape(src)), txt):
+                r7.ok(key, m.where(blk, imf))
+            else:
+                r7.violation(key, m.where(blk, imf), "a scalar right-hand side (A*x <= 1) is stored as 1x1 and handed to solvers.lp as h", "len(constant) == len(constraint)", "no test")
+    r7.require(4)
     return chk
 
 
